@@ -54,6 +54,7 @@ TraceNext ==
      /\ LET ev == Rec[l] IN
         \/ ev.a = "reset" /\ x' = [r \in Replica |-> None] /\ clk' = [r \in Replica |-> 0]
                           /\ steps' = 0 /\ l' = l + 1
+                          /\ causal' = ("causal" \in DOMAIN ev /\ ev.causal) /\ nsets' = [r \in Replica |-> 0]
         \/ ev.a = "set"   /\ DoSet(ev.r, ev.v, ev.e) /\ Judge(ev)
         \/ ev.a = "del"   /\ DoDel(ev.r) /\ Judge(ev)
         \/ ev.a = "hset"  /\ DoHSet(ev.r, ev.f, ev.v) /\ Judge(ev)
